@@ -8,7 +8,7 @@ import paths
 PROPERTY = "C23"
 TITLE = "Parsing is total, terminating and lossless"
 NEEDS = ("syn", "facts")
-TECHNIQUE = "static analysis: abstract interpretation of the parser over (token kind x recovery-set context) for loop progress and left recursion; who-writes and typestate rules on token_idx; layout facts for the unsafe reinterpretation"
+TECHNIQUE = "static analysis: abstract interpretation of the parser over (token kind x recovery-set context) for loop progress and left recursion; who-writes and typestate rules on token_idx; token-knowledge typestate over all grammar functions (every assertion about the current token holds, bump() is never reached at the end of input); layout facts for the unsafe reinterpretation"
 EXPLANATION = (
     "(a) abstract interpretation of every grammar function and Parser method (engine B, lib/progress.py): per current "
     "token kind and per reachable recovery-set context, the set of paths that consume no token is computed as a least "
